@@ -365,14 +365,26 @@ func (a *sparseArrayObject) _defineIdxProperty(idx uint32, desc PropertyDescript
 				if idx >= a.length {
 					a.length = idx + 1
 				}
+				if _, ok := prop.(*valueProperty); ok {
+					a.propValueCount++
+				}
 			} else {
-				a.val.self.(*arrayObject).values[idx] = prop
+				// switched to dense storage
+				ar := a.val.self.(*arrayObject)
+				ar.values[idx] = prop
+				ar.objCount++
+				if _, ok := prop.(*valueProperty); ok {
+					ar.propValueCount++
+				}
 			}
 		} else {
+			if _, ok := existing.(*valueProperty); ok {
+				a.propValueCount--
+			}
 			a.items[i].value = prop
-		}
-		if _, ok := prop.(*valueProperty); ok {
-			a.propValueCount++
+			if _, ok := prop.(*valueProperty); ok {
+				a.propValueCount++
+			}
 		}
 	}
 	return ok
